@@ -56,3 +56,45 @@ Example c05th_nonvacuous_retained_ancestor :
   hxt_check 0 4 6 1 SNew 13 3 [(SNewIrr, 11); (SNewIrr, 12); (SNewIrr, 13); (SNew, 14); (SNew, 15)] [15; 14; 13; 12; 11] 3 /\
   match cons_fold cons0 (hx_upto 0 6) with Some cm => map bid (cs_stack cm) = [15; 14; 13; 12] /\ cs_nf cm = 2%nat | None => False end.
 Proof. vm_compute. repeat split; discriminate. Qed.
+
+(* the serving side: when a through-cursor request for a stream cursor is served, and the ONLY situation in which a request
+   with start on the retained chain at or below the junction and the cursor LIB on the chain is refused (known finding
+   C05-through-forked-below-hub-lib) *)
+Theorem c05_through_serves_history : C05_through_serves_history.
+Proof. exact c05_through_serves_history_proof. Qed.
+Print Assumptions c05_through_serves_history.
+
+(* ---- non-vacuity of the serving side: the New cursor on the forked block 23 (event 3, cursor LIB 11, junction 12 = number 2),
+   start 2.  After block 14 (m = 5) the hub LIB is 12 (number 2): not above the junction, served.  After block 15 (m = 6)
+   the hub LIB is 13 (number 3): it has passed the junction and the request is refused, although start 2 is on the
+   retained chain 11..15, the cursor LIB 11 is on it and the cursor block 23 is retained - the known finding. *)
+Definition hxs_check (m : nat) (libnum : N) (chain : list N) (served : bool) : Prop :=
+  match nth_error (hx_upto 1 (length (hx_tr 1))) 3, last_sent (hx_s 1 m) with
+  | Some ek, Some hd =>
+      match complete_segment (db (hx_s 1 m)) (bref hd),
+            cons_fold cons0 (firstn 4 (hx_upto 1 (length (hx_tr 1)))), cons_fold cons0 (hx_upto 1 m) with
+      | Some (sg, true), Some ck, Some cm =>
+          map sid sg = chain /\ starts_within sg 2 /\ rn (libref (db (hx_s 1 m))) = libnum /\
+          block_in (ri (cu_lib (ev_cursor ek))) sg = true /\ block_in (ri (cu_blk (ev_cursor ek))) sg = false /\
+          find (ri (cu_blk (ev_cursor ek))) (store (db (hx_s 1 m))) <> None /\
+          junction_num (cs_stack ck) (cs_stack cm) = 2 /\
+          branch_to (db (hx_s 1 m)) sg 23 [mkSeg 23 3 (mkEntry hx_b3' true)] 12 /\
+          (exists je, find 12 (store (db (hx_s 1 m))) = Some je /\ bnum (eb je) = 2) /\
+          match hub_through_cursor (hx_s 1 m) 2 (ev_cursor ek) with
+          | BOk _ => served = true | BErr => served = false | _ => False end
+      | _, _, _ => False
+      end
+  | _, _ => False
+  end.
+
+Example c05th_nonvacuous_served_then_refused :
+  hxs_check 5 2 [11; 12; 13; 14] true /\ hxs_check 6 3 [11; 12; 13; 14; 15] false.
+Proof.
+  split.
+  - vm_compute. repeat split; try discriminate.
+    + apply (bt_last _ _ 23 (mkEntry hx_b3' true)); vm_compute; reflexivity.
+    + eexists. split; reflexivity.
+  - vm_compute. repeat split; try discriminate.
+    + apply (bt_last _ _ 23 (mkEntry hx_b3' true)); vm_compute; reflexivity.
+    + eexists. split; reflexivity.
+Qed.
